@@ -353,7 +353,7 @@ theorem dispatchView_unreached (v : View) (op : Op)
   | removeFront tls f' b1 b2 b3 => cases tls <;> simp [reachesDispatch, Op.kind] at h
   | addL4Front udp a c => cases udp <;> simp [reachesDispatch, Op.kind] at h
   | removeL4Front udp a c => cases udp <;> simp [reachesDispatch, Op.kind] at h
-  | addCluster c hv tv => simp [reachesDispatch, Op.kind] at h
+  | addCluster c hv tv kn => simp [reachesDispatch, Op.kind] at h
   | removeCluster c => simp [reachesDispatch, Op.kind] at h
   | addBackend c b a => simp [reachesDispatch, Op.kind] at h
   | removeBackend c b a => simp [reachesDispatch, Op.kind] at h
@@ -414,16 +414,16 @@ theorem C08_view_converges (ops : List Op) (s : WState) (hs : s.stopped = false)
 
 /-- non-vacuity: a sequence with accepted and refused commands -/
 example :
-    let ops := [Op.addCluster 1 true true, .removeBackend 1 0 0, .addBackend 1 0 0,
+    let ops := [Op.addCluster 1 true true 0, .removeBackend 1 0 0, .addBackend 1 0 0,
                 .addFront false ⟨0, 7, 1⟩ false false false false, .plain .status true]
-    forwarded View.empty ops = [Op.addCluster 1 true true, .addBackend 1 0 0,
+    forwarded View.empty ops = [Op.addCluster 1 true true 0, .addBackend 1 0 0,
                 .addFront false ⟨0, 7, 1⟩ false false false false, .plain .status true] ∧
     (runState WState.init (forwarded View.empty ops)).view.httpFronts = [⟨0, 7, 1⟩] := by decide
 
 /-- the main process forwards what its state accepted even if the worker then
     answers Failure, and the worker's view takes the command all the same: -/
 theorem C08_view_matches_behaviour_counterexample :
-    let ops := [Op.addCluster 0 true true, .addFront false ⟨0, 5, 0⟩ false false false false,
+    let ops := [Op.addCluster 0 true true 0, .addFront false ⟨0, 5, 0⟩ false false false false,
                 .addListener .http 0 true, .activate (some .http) 0]
     forwarded View.empty ops = ops ∧
     (run WState.init ops).2.map (·.resp) = [[.ok], [.failure], [.ok], [.ok]] ∧
@@ -432,10 +432,20 @@ theorem C08_view_matches_behaviour_counterexample :
 
 /-- when the worker's answers agree with the main process' verdicts the two coincide -/
 example :
-    let ops := [Op.addCluster 0 true true, .addListener .http 0 true, .activate (some .http) 0,
+    let ops := [Op.addCluster 0 true true 0, .addListener .http 0 true, .activate (some .http) 0,
                 .addFront false ⟨0, 5, 0⟩ false false false false]
     forwarded View.empty ops = ops ∧
     (run WState.init ops).2.map (·.resp) = [[.ok], [.ok], [.ok], [.ok]] ∧
     viewRoutes (run WState.init ops).1.view = servedRoutes (run WState.init ops).1 := by decide
+
+/-- AddCluster is an upsert on both sides: a second AddCluster of a known id with
+    other routing knobs replaces the configuration in the view (what
+    QueryClusterById reports) and in the plain-HTTP proxy (what it routes with) -/
+example :
+    let ops := [Op.addCluster 0 true true 0, .addCluster 0 true true 1]
+    forwarded View.empty ops = ops ∧
+    (run WState.init ops).1.view.clusters = [(0, 1)] ∧
+    (run WState.init ops).1.httpClusters = [(0, 1)] ∧
+    (clusterInfo (run WState.init ops).1.view 0).knobs = 1 := by decide
 
 end Sozu.Worker
